@@ -4,6 +4,7 @@
   `Track.takeN/dropN`, `StrictInc`, `Collinear`, `segment`) and helper lemmas: lean/Verif/Lemmas/C17.lean.
 -/
 import Verif.Lemmas.C17
+import Verif.Lemmas.C17D
 
 namespace Verif.C17
 open Verif.Py
@@ -540,5 +541,702 @@ example : gaussianTimes true 1 true [⟨[(0, 1), (1, 2), (3, 4)], none, none⟩,
 /-- `remove_tracks_in_rect` only removes whole tracks -/
 theorem removeInRect_sublist (k : Kymo) (r : Rect) (all : Bool) (g : List Track) :
     (removeInRect k r all g).Sublist g := List.filter_sublist
+
+/-! ## Deepening round D — the invariant the other theorems assume is established by the code -/
+
+theorem wf_of_same (t tr : Track) (hp : t.pts = tr.pts) (hc : t.counts = tr.counts) (h : WF tr) : WF t := by
+  unfold WF at *
+  rw [hp, hc]; exact h
+
+/-- Every editing operation that succeeds turns a group of well-formed tracks (non-empty, strictly
+    increasing scan lines, one photon count per node) into a group of well-formed tracks — for
+    arbitrary arguments, negative Python node indices included. -/
+theorem applyOp_preserves_wf (k : Kymo) (g g' : List Track) (op : Op) (hwf : ∀ tr ∈ g, WF tr)
+    (h : applyOp k g op = .ok g') : ∀ tr ∈ g', WF tr := by
+  intro t ht
+  cases op with
+  | split i node minLen =>
+    obtain ⟨tr, htr, n, h0, h1, hm⟩ := splitTrack_members g i node minLen g' h
+    rcases hm t ht with h | rfl | rfl
+    · exact hwf t h
+    · exact wf_takeN tr n (hwf tr htr) h0
+    · exact wf_dropN tr n (hwf tr htr) h1
+  | merge i ni j nj =>
+    obtain ⟨M, hM, _, hm⟩ := mergeTracks_members g i j ni nj g' hwf h
+    rcases hm t ht with h | rfl
+    · exact hwf t h
+    · exact hM
+  | filter minLen minDur =>
+    simp only [applyOp, Except.ok.injEq] at h
+    subst h
+    obtain ⟨tr, htr, hp, hc⟩ := filterTracks_members k.lt minLen minDur g t ht
+    exact wf_of_same t tr hp hc (hwf tr htr)
+  | interp =>
+    simp only [applyOp, Except.ok.injEq] at h
+    subst h
+    obtain ⟨tr, htr, rfl⟩ := List.mem_map.1 ht
+    exact wf_interpolate tr (hwf tr htr)
+  | rect r all =>
+    simp only [applyOp, Except.ok.injEq] at h
+    subst h
+    exact hwf t ((removeInRect_sublist k r all g).subset ht)
+
+/-- … hence after ANY program of split / merge / filter / interpolate / remove-in-rectangle operations
+    (failing operations leave the group unchanged) all tracks are still well formed: the hypotheses
+    `StrictInc`, `pts ≠ []` of the interpolation, merge-order and duration-bound theorems hold at
+    every step of an editing session that starts from well-formed tracks. -/
+theorem runProg_preserves_wf (k : Kymo) (g : List Track) (ops : List Op) (hwf : ∀ tr ∈ g, WF tr) :
+    ∀ tr ∈ (runProg k g ops).2, WF tr := by
+  induction ops generalizing g with
+  | nil => exact hwf
+  | cons op ops ih =>
+    unfold runProg
+    cases h : applyOp k g op with
+    | ok g' => exact ih g' (applyOp_preserves_wf k g g' op hwf h)
+    | error e => exact ih g hwf
+
+example : WF ⟨[(0, 1), (2, 2), (3, 5)], some 1, some [4, 5, 6]⟩ := by
+  refine ⟨by simp, by unfold StrictInc; decide, ?_⟩
+  intro c hc; cases hc; rfl
+
+def Op.isInterp : Op → Bool
+  | .interp => true
+  | _ => false
+
+theorem applyOp_no_new_nodes (k : Kymo) (g g' : List Track) (op : Op) (hwf : ∀ tr ∈ g, WF tr)
+    (hop : op.isInterp = false) (h : applyOp k g op = .ok g') : ∀ p ∈ nodesOf g', p ∈ nodesOf g := by
+  intro p hp
+  rw [mem_nodesOf] at hp ⊢
+  obtain ⟨t, ht, hpt⟩ := hp
+  cases op with
+  | split i node minLen =>
+    obtain ⟨tr, htr, n, _, _, hm⟩ := splitTrack_members g i node minLen g' h
+    rcases hm t ht with h | rfl | rfl
+    · exact ⟨t, h, hpt⟩
+    · exact ⟨tr, htr, (List.take_sublist _ _).subset hpt⟩
+    · exact ⟨tr, htr, (List.drop_sublist _ _).subset hpt⟩
+  | merge i ni j nj =>
+    obtain ⟨M, _, hM, hm⟩ := mergeTracks_members g i j ni nj g' hwf h
+    rcases hm t ht with h | rfl
+    · exact ⟨t, h, hpt⟩
+    · exact hM p hpt
+  | filter minLen minDur =>
+    simp only [applyOp, Except.ok.injEq] at h
+    subst h
+    obtain ⟨tr, htr, hp', _⟩ := filterTracks_members k.lt minLen minDur g t ht
+    exact ⟨tr, htr, hp' ▸ hpt⟩
+  | interp => simp [Op.isInterp] at hop
+  | rect r all =>
+    simp only [applyOp, Except.ok.injEq] at h
+    subst h
+    exact ⟨t, (removeInRect_sublist k r all g).subset ht, hpt⟩
+
+/-- **Editing never invents or alters a node**: after any program of split / merge / filter /
+    remove-in-rectangle operations every node (scan line, coordinate) of every track is a node of
+    some track of the group the program started from. -/
+theorem runProg_no_new_nodes (k : Kymo) (g : List Track) (ops : List Op) (hwf : ∀ tr ∈ g, WF tr)
+    (hno : ∀ op ∈ ops, op.isInterp = false) : ∀ p ∈ nodesOf (runProg k g ops).2, p ∈ nodesOf g := by
+  induction ops generalizing g with
+  | nil => intro p hp; exact hp
+  | cons op ops ih =>
+    unfold runProg
+    have hno' : ∀ o ∈ ops, o.isInterp = false := fun o ho => hno o (List.mem_cons_of_mem _ ho)
+    cases h : applyOp k g op with
+    | ok g' =>
+      intro p hp
+      exact applyOp_no_new_nodes k g g' op hwf (hno op (by simp)) h p
+        (ih g' (applyOp_preserves_wf k g g' op hwf h) hno' p hp)
+    | error e => exact ih g hwf hno'
+
+example : (runProg ⟨1, some 1, 1 / 8⟩ [⟨[(0, 1), (1, 2), (3, 4)], none, none⟩, ⟨[(5, 5)], none, none⟩]
+    [.split 0 1 1, .merge 0 0 2 0, .filter 2 0]).2
+    = [⟨[(1, 2), (5, 5)], some (1 / 8), none⟩] := by decide +kernel
+
+/-! ## composition laws -/
+
+/-- **Split followed by reconnecting the two parts is the identity**: splitting track `i` at node `n`
+    appends the two parts at the end of the group; connecting the last node of the first part with the
+    first node of the second part gives back the track (nodes, photon counts, minimum duration) and
+    leaves every other track as it was. -/
+theorem split_merge_roundtrip (g : List Track) (i : Nat) (tr : Track) (hi : g[i]? = some tr) (n : Nat)
+    (h0 : 0 < n) (h1 : n < tr.len) (hs : StrictInc tr.pts) (minLen : Int) (hb : minLen ≤ n)
+    (ha : minLen ≤ (tr.len : Int) - n) :
+    ∃ g', splitTrack g i n minLen = .ok g' ∧
+      mergeTracks g' (g.length - 1) ((n : Int) - 1) g.length 0 = .ok (g.eraseIdx i ++ [tr]) := by
+  have hil : i < g.length := (List.getElem?_eq_some_iff.1 hi).1
+  have hlen : tr.pts.length = tr.len := rfl
+  refine ⟨g.eraseIdx i ++ [tr.takeN n, tr.dropN n], ?_, ?_⟩
+  · rw [splitTrack_spec g i tr hi n h0 h1 minLen]
+    have e1 : (tr.takeN n).len = n := by simp only [Track.takeN, Track.len, List.length_take]; omega
+    have e2 : (tr.dropN n).len = tr.len - n := by simp only [Track.dropN, Track.len, List.length_drop]
+    have d1 : decide (minLen ≤ ((tr.takeN n).len : Int)) = true := by rw [e1]; simpa using hb
+    have d2 : decide (minLen ≤ ((tr.dropN n).len : Int)) = true := by
+      rw [e2]; simp only [decide_eq_true_eq]; omega
+    simp [List.filter, d1, d2]
+  · have hE : (g.eraseIdx i).length = g.length - 1 := by rw [List.length_eraseIdx]; simp [hil]
+    obtain ⟨m, rfl⟩ : ∃ m, n = m + 1 := ⟨n - 1, by omega⟩
+    have hm1 : m < tr.pts.length := by omega
+    have hm2 : m + 1 < tr.pts.length := by omega
+    have hcast : ((m + 1 : Nat) : Int) - 1 = (m : Int) := by omega
+    have hz : (0 : Int) = ((0 : Nat) : Int) := rfl
+    rw [hcast, hz]
+    have hA : (g.eraseIdx i ++ [tr.takeN (m + 1), tr.dropN (m + 1)])[g.length - 1]? = some (tr.takeN (m + 1)) := by
+      rw [← hE, List.getElem?_append_right (Nat.le_refl _)]; simp
+    have hB : (g.eraseIdx i ++ [tr.takeN (m + 1), tr.dropN (m + 1)])[g.length]? = some (tr.dropN (m + 1)) := by
+      have : g.length = (g.eraseIdx i).length + 1 := by omega
+      rw [this, List.getElem?_append_right (by omega)]; simp
+    have hpa : (tr.takeN (m + 1)).pts[m]? = some tr.pts[m] := by
+      simp only [Track.takeN]
+      rw [List.getElem?_take_of_lt (by omega), List.getElem?_eq_getElem hm1]
+    have hpb : (tr.dropN (m + 1)).pts[0]? = some tr.pts[m + 1] := by
+      simp only [Track.dropN]
+      rw [List.getElem?_drop, List.getElem?_eq_getElem (by omega)]
+    have hlt : (tr.pts[m]).1 < (tr.pts[m + 1]).1 :=
+      List.pairwise_iff_getElem.1 hs m (m + 1) hm1 hm2 (by omega)
+    rw [merge_conserves_undiscarded _ (g.length - 1) g.length m 0 _ _ _ _ hA hB hpa hpb hlt]
+    have hne : ¬ g.length - 1 = g.length := by omega
+    simp only [hne, if_false]
+    have hM : mergedTrack (tr.takeN (m + 1)) (tr.dropN (m + 1)) m 0 = tr := by
+      unfold mergedTrack Track.takeN Track.dropN
+      cases tr with
+      | mk pts md cs =>
+        cases cs with
+        | none => simp [List.take_take]
+        | some c => simp [List.take_take]
+    rw [hM, ← hE, List.set_append_right _ _ (Nat.le_refl _)]
+    simp only [Nat.sub_self, List.set_cons_zero]
+    have : (g.eraseIdx i).length + 1 = (g.eraseIdx i).length + 1 := rfl
+    rw [show g.length = (g.eraseIdx i).length + 1 by omega,
+      List.eraseIdx_append_of_length_le (by omega)]
+    simp
+
+example : ∃ g', splitTrack [⟨[(9, 9)], none, none⟩, ⟨[(0, 1), (1, 2), (3, 4)], some 1, some [5, 6, 7]⟩] 1 (2 : Nat) 1 = .ok g' ∧
+    mergeTracks g' 1 1 2 0 = .ok [⟨[(9, 9)], none, none⟩, ⟨[(0, 1), (1, 2), (3, 4)], some 1, some [5, 6, 7]⟩] :=
+  ⟨[⟨[(9, 9)], none, none⟩, ⟨[(0, 1), (1, 2)], some 1, some [5, 6]⟩, ⟨[(3, 4)], some 1, some [7]⟩],
+    by decide +kernel, by decide +kernel⟩
+
+/-- **interpolating twice = interpolating once** -/
+theorem interpolate_idempotent (tr : Track) (hne : tr.pts ≠ []) :
+    tr.interpolate.interpolate = tr.interpolate := by
+  unfold Track.interpolate
+  simp only [interpolate_idem tr.pts hne]
+
+example : (⟨[(0, 1), (2, 2)], some 1, some [3, 4]⟩ : Track).interpolate.interpolate
+    = ⟨[(0, 1), (1, 3 / 2), (2, 2)], some 1, none⟩ := by decide +kernel
+
+/-- **centroid refinement of already refined tracks fills the same lines**: refining twice returns
+    tracks on exactly the scan lines of refining once (whatever the two estimators do). -/
+theorem refine_refine_span (f f' : Int → Rat → Rat) (s s' : Int → Rat → Int) (g : List Track)
+    (hne : ∀ tr ∈ g, tr.pts ≠ []) :
+    (refineCentroid f' s' (refineCentroid f s g)).map (·.times) = (refineCentroid f s g).map (·.times) := by
+  simp only [refineCentroid, List.map_map]
+  apply List.map_congr_left
+  intro tr htr
+  simp only [Function.comp, Track.times, List.map_map]
+  have hfst : ∀ (h : Int → Rat → Rat) (l : List Pt), (l.map fun p => (p.1, h p.1 p.2)).map (·.1) = l.map (·.1) := by
+    intro h l; rw [List.map_map]; rfl
+  have e1 := hfst f (interpolate tr.pts)
+  rw [interpolate_times_eq] at e1
+  have hab : tmin tr.pts ≤ tmax tr.pts := by
+    cases hp : tr.pts with
+    | nil => exact absurd hp (hne tr htr)
+    | cons p ps => have := tmin_le_tmax_mem (p :: ps) p (by simp); omega
+  have hsi : StrictInc ((interpolate tr.pts).map fun p => (p.1, f p.1 p.2)) := by
+    have h := arange_pairwise (tmin tr.pts) (tmax tr.pts + 1)
+    rw [← e1, List.pairwise_map] at h
+    exact h
+  obtain ⟨h1, h2⟩ := tmin_tmax_of_times _ hsi _ _ hab e1
+  have hc : ∀ h : Int → Rat → Rat, ((fun x : Pt => x.1) ∘ fun p : Pt => (p.1, h p.1 p.2)) = fun p => p.1 :=
+    fun _ => rfl
+  rw [hc, hc, interpolate_times_eq, interpolate_times_eq, h1, h2]
+
+example : (refineCentroid (fun _ c => c + 1) (fun _ _ => 7) (refineCentroid (fun _ c => c) (fun _ _ => 0)
+    [⟨[(2, 1), (5, 2)], none, none⟩])).map (·.times) = [[2, 3, 4, 5]] := by decide +kernel
+
+/-- **filtering twice = filtering once with both thresholds**: the tracks kept are those meeting both
+    pairs of thresholds and the minimum observable duration is the maximum of the old value and both
+    bounds (filters never lower it, and commute). -/
+theorem filter_filter (lt : Rat) (L₁ L₂ : Int) (D₁ D₂ : Rat) (g : List Track) :
+    filterTracks lt L₂ D₂ (filterTracks lt L₁ D₁ g)
+      = (g.filter fun tr => keepTrack lt L₁ D₁ tr && keepTrack lt L₂ D₂ tr).map fun tr =>
+          { tr with minDur := some (max (max (tr.minDur.getD 0) (minObservable lt L₁ D₁)) (minObservable lt L₂ D₂)) } := by
+  unfold filterTracks
+  rw [List.filter_map, List.filter_filter, List.map_map]
+  congr 1
+  congr 1
+  funext tr
+  exact Bool.and_comm _ _
+
+theorem filter_idempotent (lt : Rat) (L : Int) (D : Rat) (g : List Track) :
+    filterTracks lt L D (filterTracks lt L D g) = filterTracks lt L D g := by
+  rw [filter_filter]
+  unfold filterTracks
+  have h1 : (g.filter fun tr => keepTrack lt L D tr && keepTrack lt L D tr) = g.filter (keepTrack lt L D) := by
+    congr 1; funext tr; simp
+  rw [h1]
+  apply List.map_congr_left
+  intro tr _
+  rw [max_assoc, max_self]
+
+/-! ## removing tracks in a rectangle -/
+
+/-- **`remove_tracks_in_rect` removes exactly the tracks with a node (`all_points`: with all nodes)
+    inside the half-open rectangle** `[min t, max t) × [min x, max x)` in seconds × position units —
+    whichever order the two corners are given in —, keeps all other tracks, unchanged and in order. -/
+theorem removeInRect_spec (k : Kymo) (r : Rect) (all : Bool) (g : List Track) :
+    removeInRect k r all g = g.filter fun tr =>
+      let inside : Pt → Prop := fun p =>
+        min r.t0 r.t1 ≤ k.lt * p.1 ∧ k.lt * p.1 < max r.t0 r.t1 ∧
+        min r.x0 r.x1 ≤ p.2 * k.px ∧ p.2 * k.px < max r.x0 r.x1
+      if all then decide (¬ ∀ p ∈ tr.pts, inside p) else decide (¬ ∃ p ∈ tr.pts, inside p) := by
+  unfold removeInRect
+  congr 1
+  funext tr
+  have hmin : ∀ a b : Rat, (if a > b then b else a) = min a b := by
+    intro a b
+    by_cases h : a > b
+    · simp [h, min_eq_right (le_of_lt h)]
+    · simp [h, min_eq_left (not_lt.1 h)]
+  have hmax : ∀ a b : Rat, (if a > b then a else b) = max a b := by
+    intro a b
+    by_cases h : a > b
+    · simp [h, max_eq_left (le_of_lt h)]
+    · simp [h, max_eq_right (not_lt.1 h)]
+  have hpt : ∀ p : Pt, ptInRect k r.ordered p = decide (min r.t0 r.t1 ≤ k.lt * p.1 ∧ k.lt * p.1 < max r.t0 r.t1 ∧
+        min r.x0 r.x1 ≤ p.2 * k.px ∧ p.2 * k.px < max r.x0 r.x1) := by
+    intro p
+    simp only [ptInRect, Rect.ordered, hmin, hmax, Bool.decide_and]
+    cases decide (k.lt * ↑p.1 < max r.t0 r.t1) <;> cases decide (min r.t0 r.t1 ≤ k.lt * ↑p.1) <;>
+      cases decide (p.2 * k.px < max r.x0 r.x1) <;> cases decide (min r.x0 r.x1 ≤ p.2 * k.px) <;> rfl
+  have hfun := funext hpt
+  cases all with
+  | true =>
+    simp only [inRect, if_true, hfun]
+    rw [Bool.eq_iff_iff]
+    simp
+  | false =>
+    simp only [inRect, Bool.false_eq_true, if_false, hfun]
+    rw [Bool.eq_iff_iff]
+    simp
+
+example : removeInRect ⟨1 / 10, some (1 / 10), 1 / 8⟩ ⟨1 / 2, 1, 0, 0⟩ false
+      [⟨[(0, 1), (5, 2)], none, none⟩, ⟨[(1, 12), (2, 3)], none, none⟩, ⟨[(4, 1)], none, none⟩]
+    = [⟨[(4, 1)], none, none⟩] := by decide +kernel
+
+/-! ## the file as text: version header, column titles, lookup by title -/
+
+/-- **Save + import through the text of the file = save + import of the named columns.**  The titles
+    `export_kymotrackgroup_to_csv` writes (five fixed ones, the counts title iff a sampling width is
+    given, the minimum-duration title iff every track has one; position unit um / kbp / pixel), the
+    `# ` that `np.savetxt` puts in front of the first title, the `zip(header, columns)` dict of
+    `_read_txt` and the look-ups BY TITLE of `import_kymotrackgroup_from_csv` (mandatory fields, version
+    dependent minimum-duration title, first key containing `counts`) pick exactly the cells that were
+    written: for every group, sampling width and sampler the result is the one of `roundtrip`. -/
+theorem file_roundtrip (k : Kymo) (unit : Title) (hu : unit = uUm ∨ unit = uKbp ∨ unit = uPixel)
+    (sw : Option Nat) (smp : Nat → Int → Rat → Int) (fmt : Rat → Rat) (g : List Track) :
+    fileRoundtrip k unit sw smp fmt g = roundtrip k (sw.map smp) fmt g := by
+  unfold fileRoundtrip exportFile roundtrip
+  cases h : exportRows k (sw.map smp) fmt g with
+  | error e => rfl
+  | ok rows =>
+    simp only
+    have hs := exported_rows_shape k (sw.map smp) fmt g rows h
+    exact importFile_written k unit hu sw _ rows (by
+      intro r hr
+      have := hs r hr
+      simpa using this)
+
+/-- … so the round-trip theorem holds for the file as text: every non-empty group of non-empty tracks
+    (a single one-node track included) comes back with the same tracks in the same order. -/
+theorem file_roundtrip_spec (k : Kymo) (hpx : k.px ≠ 0) (unit : Title)
+    (hu : unit = uUm ∨ unit = uKbp ∨ unit = uPixel) (sw : Option Nat) (smp : Nat → Int → Rat → Int)
+    (fmt : Rat → Rat) (g : List Track) (hne : g ≠ []) (hpts : ∀ tr ∈ g, tr.pts ≠ []) :
+    fileRoundtrip k unit sw smp fmt g
+      = .ok (g.map (reimported (sw.map smp) fmt (g.all (·.minDur.isSome)))) := by
+  rw [file_roundtrip k unit hu, import_export_roundtrip k hpx _ fmt g hne hpts]
+
+example : fileRoundtrip ⟨3 / 5, some (1 / 10), 1 / 8⟩ uKbp (some 1) (fun w => sumSignal [[1, 2, 3], [4, 5, 6]] w (1 / 2)) fmt6e
+      [⟨[(0, 1 / 2), (1, 3 / 2)], some (1 / 4), none⟩, ⟨[(1, 0)], some 0, none⟩]
+    = .ok [⟨[(0, 1 / 2), (1, 3 / 2)], some (1 / 4), some [6, 11]⟩, ⟨[(1, 0)], some 0, some [9]⟩] := by
+  decide +kernel
+
+/-- the header of the single-node file of finding F4 (test: one concrete file) -/
+example : exportFile ⟨1 / 10, some (1 / 10), 1 / 8⟩ uUm none (fun _ _ _ => 0) fmt6e [⟨[(3, 3 / 2)], none, none⟩]
+    = .ok ⟨some 4, [tIdx, tTimePx, tCoordPx, tTimeSec, tPosition uUm], [[0, 3, 3 / 2, 3 / 8, 3 / 20]]⟩ := by
+  decide +kernel
+
+/-- a version-3 file keeps its minimum length under `minimum_length (-)`; the same column under the
+    version-4 title is not read (test: two concrete files) -/
+example : importFile ⟨1 / 10, some (1 / 10), 1 / 8⟩ ⟨some 3, [tIdx, tTimePx, tCoordPx, tMinLenV3], [[0, 3, 3 / 2, 2]]⟩
+      = .ok [⟨[(3, 3 / 2)], some 2, none⟩]
+    ∧ importFile ⟨1 / 10, some (1 / 10), 1 / 8⟩ ⟨some 3, [tIdx, tTimePx, tCoordPx, tMinDur], [[0, 3, 3 / 2, 2]]⟩
+      = .ok [⟨[(3, 3 / 2)], none, none⟩]
+    ∧ importFile ⟨1 / 10, some (1 / 10), 1 / 8⟩ ⟨some 4, [tTimePx, tIdx, tCoordPx], [[0, 3, 3 / 2]]⟩ = .error .io := by
+  decide +kernel
+
+/-! ## the `%.6e` column of minimum observable durations -/
+
+/-- the magnitudes the exponent search of the model covers (every finite double is inside) -/
+def InRange (x : Rat) : Prop := x = 0 ∨ (pow10 (-1000) ≤ |x| ∧ |x| < pow10 1000)
+
+theorem fmt6e_zero : fmt6e 0 = 0 := by rw [fmt6e_eq]; simp
+
+/-- **`%.6e` is idempotent**: a value that was printed with seven significant digits is printed
+    unchanged — the hypothesis `fmt d = d` of `import_export_roundtrip_id` is ESTABLISHED by the first
+    save. -/
+theorem fmt6e_idempotent (x : Rat) (h : InRange x) : fmt6e (fmt6e x) = fmt6e x := by
+  rcases h with rfl | ⟨hlo, hhi⟩
+  · rw [fmt6e_zero, fmt6e_zero]
+  · rw [fmt6e_eq x]
+    have hx0 : x ≠ 0 := by
+      intro h0; subst h0
+      have := pow10_pos (-1000)
+      simp at hlo; linarith
+    simp only [hx0, if_false]
+    by_cases hneg : x < 0
+    · simp only [hneg, if_true]
+      rw [abs_of_neg hneg] at hlo hhi
+      obtain ⟨hv, hid, _⟩ := fmtPos_props (-x) (by linarith) hlo hhi
+      rw [fmt6e_eq]
+      have h1 : -fmtPos (-x) ≠ 0 := by linarith
+      have h2 : -fmtPos (-x) < 0 := by linarith
+      simp only [h1, h2, if_false, if_true, neg_neg, hid]
+    · simp only [hneg, if_false]
+      have hpos : 0 < x := lt_of_le_of_ne (not_lt.1 hneg) (Ne.symm hx0)
+      rw [abs_of_pos hpos] at hlo hhi
+      obtain ⟨hv, hid, _⟩ := fmtPos_props x hpos hlo hhi
+      rw [fmt6e_eq]
+      have h1 : fmtPos x ≠ 0 := by linarith
+      have h2 : ¬ fmtPos x < 0 := by linarith
+      simp only [h1, h2, if_false, hid]
+
+/-- **`%.6e` keeps seven significant digits**: the printed value differs from the value by at most
+    half a unit of the seventh digit, i.e. relative `5·10⁻⁷`. -/
+theorem fmt6e_accurate (x : Rat) (h : InRange x) : |fmt6e x - x| ≤ |x| * (1 / 2000000) := by
+  rcases h with rfl | ⟨hlo, hhi⟩
+  · rw [fmt6e_zero]; simp
+  · rw [fmt6e_eq x]
+    have hx0 : x ≠ 0 := by
+      intro h0; subst h0
+      have := pow10_pos (-1000)
+      simp at hlo; linarith
+    simp only [hx0, if_false]
+    by_cases hneg : x < 0
+    · simp only [hneg, if_true]
+      rw [abs_of_neg hneg] at hlo hhi ⊢
+      obtain ⟨_, _, hacc⟩ := fmtPos_props (-x) (by linarith) hlo hhi
+      have : -fmtPos (-x) - x = -(fmtPos (-x) - -x) := by ring
+      rw [this, abs_neg]; exact hacc
+    · simp only [hneg, if_false]
+      have hpos : 0 < x := lt_of_le_of_ne (not_lt.1 hneg) (Ne.symm hx0)
+      rw [abs_of_pos hpos] at hlo hhi ⊢
+      exact (fmtPos_props x hpos hlo hhi).2.2
+
+example : InRange (1234567 / 1000000 + 1 / 3) := by
+  right
+  rw [pow10_eq_zpow, pow10_eq_zpow, abs_of_pos (by norm_num)]
+  constructor
+  · calc (10 : Rat) ^ (-1000 : Int) ≤ 10 ^ (0 : Int) := zpow_le_zpow_right₀ (by norm_num) (by norm_num)
+      _ ≤ _ := by norm_num
+  · calc (1234567 / 1000000 + 1 / 3 : Rat) < 10 ^ (1 : Int) := by norm_num
+      _ ≤ 10 ^ (1000 : Int) := zpow_le_zpow_right₀ (by norm_num) (by norm_num)
+
+/-- test (not a theorem about all inputs): a tie is rounded to even, a carry moves the exponent -/
+example : fmt6e (12345675 / 10000000) = 1234568 / 1000000 ∧ fmt6e (99999995 / 10000000) = 10
+    ∧ fmt6e (fmt6e (1 / 3)) = fmt6e (1 / 3) := by decide +kernel
+
+/-- **Save → load → save → load = save → load.**  For every non-empty group of non-empty tracks, the
+    group that comes back from a file is a fixed point of the round trip: saving it again (same
+    kymograph, same sampling) and importing returns exactly the same tracks, photon counts and
+    minimum observable durations. -/
+theorem roundtrip_twice (k : Kymo) (hpx : k.px ≠ 0) (sample : Option (Int → Rat → Int)) (g : List Track)
+    (hne : g ≠ []) (hpts : ∀ tr ∈ g, tr.pts ≠ [])
+    (hr : ∀ tr ∈ g, ∀ d, tr.minDur = some d → InRange d) :
+    ∃ g', roundtrip k sample fmt6e g = .ok g' ∧ roundtrip k sample fmt6e g' = .ok g' := by
+  refine ⟨_, import_export_roundtrip k hpx sample fmt6e g hne hpts, ?_⟩
+  apply import_export_roundtrip_id k hpx sample fmt6e
+  · simpa using hne
+  · intro tr' h'
+    obtain ⟨tr, htr, rfl⟩ := List.mem_map.1 h'
+    exact hpts tr htr
+  · intro tr' h'
+    obtain ⟨tr, htr, rfl⟩ := List.mem_map.1 h'
+    rfl
+  · cases hall : g.all (·.minDur.isSome) with
+    | false =>
+      left
+      intro tr' h'
+      obtain ⟨tr, htr, rfl⟩ := List.mem_map.1 h'
+      simp [reimported, mdOf]
+    | true =>
+      right
+      intro tr' h'
+      obtain ⟨tr, htr, rfl⟩ := List.mem_map.1 h'
+      have hsome := (List.all_eq_true.1 hall) tr htr
+      obtain ⟨d, hd⟩ := Option.isSome_iff_exists.1 hsome
+      refine ⟨fmt6e d, by simp [reimported, mdOf, hd], ?_⟩
+      exact fmt6e_idempotent d (hr tr htr d hd)
+
+example : ∃ g', roundtrip ⟨3 / 5, some (1 / 10), 1 / 8⟩ (some (sumSignal [[1, 2, 3], [4, 5, 6]] 1 (1 / 2))) fmt6e
+      [⟨[(0, 1 / 2), (1, 3 / 2)], some (1 / 3), none⟩] = .ok g' ∧
+    roundtrip ⟨3 / 5, some (1 / 10), 1 / 8⟩ (some (sumSignal [[1, 2, 3], [4, 5, 6]] 1 (1 / 2))) fmt6e g' = .ok g' :=
+  ⟨[⟨[(0, 1 / 2), (1, 3 / 2)], some (3333333 / 10000000), some [6, 11]⟩], by decide +kernel, by decide +kernel⟩
+
+/-! ## sampled photon counts (`_sum_track_signal`) -/
+
+/-- **The sampled count is the sum over the pixels of the scan line within `w` of the centre pixel**
+    (`int(c + offset)`), clipped to the image: the Python slice `max(centre − w, 0) : centre + w + 1`
+    selects exactly the positions `p` with `centre − w ≤ p ≤ centre + w` that exist — provided the
+    stop of the slice is not negative (centre pixel at most `w + 1` left of the image). -/
+theorem sumSignal_spec (img : List (List Int)) (w : Nat) (off : Rat) (t : Int) (c : Rat)
+    (h : 0 ≤ trunc (c + off) + w + 1) :
+    sumSignal img w off t c
+      = (((List.range ((pyIndex img t).getD []).length).filter fun (p : Nat) =>
+            decide (trunc (c + off) - w ≤ (p : Int) ∧ (p : Int) ≤ trunc (c + off) + w)).map
+          fun (p : Nat) => (((pyIndex img t).getD [])[p]?).getD 0).sum := by
+  unfold sumSignal
+  simp only
+  generalize (pyIndex img t).getD [] = line
+  generalize trunc (c + off) = centre at *
+  unfold pySlice
+  obtain ⟨i, hi⟩ : ∃ i : Nat, max (centre - (w : Int)) 0 = i := ⟨(max (centre - (w : Int)) 0).toNat, by omega⟩
+  obtain ⟨j, hj⟩ : ∃ j : Nat, centre + (w : Int) + 1 = j := ⟨(centre + (w : Int) + 1).toNat, by omega⟩
+  rw [hi, hj, pyNorm_nat, pyNorm_nat, sum_take_drop]
+  unfold windowSum
+  congr 2
+  apply List.filter_congr
+  intro p hp
+  have hp' : p < line.length := List.mem_range.1 hp
+  simp only [decide_eq_decide]
+  omega
+
+example : sumSignal [[1, 2, 3, 4, 5]] 1 (1 / 2) 0 (1 / 4) = 3 ∧ sumSignal [[1, 2, 3, 4, 5]] 1 (1 / 2) 0 (15 / 4) = 9 := by
+  decide +kernel
+
+example : (0 : Int) ≤ trunc (1 / 4 + 1 / 2) + ((1 : Nat) : Int) + 1 := by decide +kernel
+
+/-- the hypothesis is necessary (kernel-checked witness): a centre pixel more than `w + 1` left of the
+    image makes the stop of the slice negative, Python counts it from the END of the line, and the
+    "window" is almost the whole scan line (10 instead of 0).  Coordinates of tracks lie inside the
+    image, so the property never meets this case. -/
+theorem sumSignal_negative_stop_wraps : sumSignal [[1, 2, 3, 4, 5]] 1 0 0 (-3) = 10 := by decide +kernel
+
+/-! ## centroid refinement on a noise-free spot (bias correction off) -/
+
+/-- the two `convolve2d(…, "same")` calls of `refine_peak_based_on_moment` are the zeroth and first
+    moment (about the pixel `p`) of the `2h+1` pixels around `p`, zero outside the image -/
+theorem centroid_offset_spec (eps : Rat) (line : List Rat) (h : Nat) (p : Int) :
+    subpixelOffset eps line h p
+      = (∑ j ∈ Finset.range (2 * h + 1), (((j : Int) - h : Int) : Rat) * dAt line (p - h + j))
+        / (∑ j ∈ Finset.range (2 * h + 1), dAt line (p - h + j) + eps) := by
+  unfold subpixelOffset
+  rw [conv_mean, conv_dir]
+
+/-- **Centroid refinement returns the true centre of a noise-free spot.**  Whenever the refinement of a
+    node succeeds it stops at a pixel `c` that the loop no longer moves, and returns `c + offset(c)`.
+    If the spot on that scan line is non-negative, has counts, and lies inside the window of `c`
+    (no counts further than `h` pixels from `c`), the returned coordinate is the centre of mass
+    `Σ q·I(q) / Σ I(q)` of the line, pulled towards `c` by the factor `eps / (Σ I + eps)` of the
+    regularised division — at most `h·eps / (Σ I + eps)` pixels (`eps = 1e-7`). -/
+theorem centroid_true_centre (eps : Rat) (heps : 0 ≤ eps) (img : List (List Rat)) (h : Nat) (t : Int)
+    (x y : Rat) (hy : centroidCoord eps img h t x = some y) :
+    ∃ c : Int, stepCoord eps ((pyIndex img t).getD []) h c = c ∧
+      y = (c : Rat) + subpixelOffset eps ((pyIndex img t).getD []) h c ∧
+      (SpotInWindow ((pyIndex img t).getD []) h c → (∀ q, 0 ≤ pix ((pyIndex img t).getD []) q) →
+        0 < lineMass ((pyIndex img t).getD []) →
+        let μ := lineMoment ((pyIndex img t).getD []) / lineMass ((pyIndex img t).getD [])
+        let M := lineMass ((pyIndex img t).getD [])
+        y - μ = ((c : Rat) - μ) * (eps / (M + eps)) ∧ |y - μ| ≤ (h : Rat) * (eps / (M + eps))) := by
+  unfold centroidCoord at hy
+  simp only at hy
+  generalize (pyIndex img t).getD [] = line at *
+  cases hst : settle eps line h 99 (roundHalfEven x) with
+  | none => simp [hst] at hy
+  | some c =>
+    simp only [hst, Option.map_some, Option.some.injEq] at hy
+    refine ⟨c, settle_stable eps line h 99 _ c hst, hy.symm, ?_⟩
+    intro hs hpos hM
+    have hMe : lineMass line + eps ≠ 0 := by linarith
+    have hM0 : lineMass line ≠ 0 := ne_of_gt hM
+    have hval := centroid_value eps line h c hs hMe
+    rw [hy] at hval
+    have hfrac : 0 ≤ eps / (lineMass line + eps) := div_nonneg heps (by linarith)
+    have heq : y - lineMoment line / lineMass line
+        = ((c : Rat) - lineMoment line / lineMass line) * (eps / (lineMass line + eps)) := by
+      rw [hval]; field_simp; ring
+    refine ⟨heq, ?_⟩
+    rw [heq, abs_mul, abs_of_nonneg hfrac]
+    apply mul_le_mul_of_nonneg_right _ hfrac
+    have hnear := com_near line h c hs hpos
+    have : (c : Rat) - lineMoment line / lineMass line = ((c : Rat) * lineMass line - lineMoment line) / lineMass line := by
+      field_simp
+    rw [this, abs_div, abs_of_pos hM, div_le_iff₀ hM]
+    exact hnear
+
+/-- non-vacuity (tests on concrete lines): a symmetric spot is returned at its centre; an asymmetric
+    one makes the loop walk one pixel and is returned at its centre of mass 7/4, up to `eps` -/
+example : centroidCoord (1 / 10000000) [[0, 1, 2, 1, 0]] 2 0 2 = some 2 := by decide +kernel
+example : centroidCoord (1 / 10000000) [[0, 1, 3, 0, 0]] 2 0 1 = some (2 - 1 / (4 + 1 / 10000000)) := by
+  decide +kernel
+example : SpotInWindow [0, 1, 3, 0, 0] 2 2 := by
+  intro q hq hne
+  simp only [List.length_cons, List.length_nil] at hq
+  have : q = 0 ∨ q = 1 ∨ q = 2 ∨ q = 3 ∨ q = 4 := by omega
+  rcases this with rfl | rfl | rfl | rfl | rfl <;> simp
+
+/-- **what the centroid estimate is, for ANY data**: pixel + offset is the centre of mass of the pixels
+    of the scan line that lie in the window `p−h … p+h` (those inside the image), with the pixel centre
+    `p` itself entered with weight `eps` (the regularisation of the division). -/
+theorem centroid_window_mean (eps : Rat) (line : List Rat) (h : Nat) (p : Int)
+    (hden : (∑ q ∈ Finset.range line.length,
+        if p - h ≤ (q : Int) ∧ (q : Int) ≤ p + h then pix line q else 0) + eps ≠ 0) :
+    (p : Rat) + subpixelOffset eps line h p
+      = ((∑ q ∈ Finset.range line.length,
+            if p - h ≤ (q : Int) ∧ (q : Int) ≤ p + h then (q : Rat) * pix line q else 0) + (p : Rat) * eps)
+        / ((∑ q ∈ Finset.range line.length,
+            if p - h ≤ (q : Int) ∧ (q : Int) ≤ p + h then pix line q else 0) + eps) := by
+  have hiff : ∀ q : Nat, (p - (h : Int) ≤ (q : Int) ∧ (q : Int) < p - (h : Int) + ((2 * h + 1 : Nat) : Int))
+      ↔ (p - (h : Int) ≤ (q : Int) ∧ (q : Int) ≤ p + h) := by
+    intro q; push_cast; omega
+  have hm0 : ∑ j ∈ Finset.range (2 * h + 1), dAt line (p - h + j)
+      = ∑ q ∈ Finset.range line.length, if p - h ≤ (q : Int) ∧ (q : Int) ≤ p + h then pix line q else 0 := by
+    have := window_sum_eq line (fun _ => 1) (p - h) (2 * h + 1)
+    simp only [one_mul] at this
+    rw [this]
+    apply Finset.sum_congr rfl
+    intro q _
+    simp only [hiff q]
+  have hm1 : ∑ j ∈ Finset.range (2 * h + 1), (((j : Int) - h : Int) : Rat) * dAt line (p - h + j)
+      = (∑ q ∈ Finset.range line.length, if p - h ≤ (q : Int) ∧ (q : Int) ≤ p + h then (q : Rat) * pix line q else 0)
+        - (p : Rat) * ∑ q ∈ Finset.range line.length, if p - h ≤ (q : Int) ∧ (q : Int) ≤ p + h then pix line q else 0 := by
+    have := window_sum_eq line (fun z => ((z - p : Int) : Rat)) (p - h) (2 * h + 1)
+    have e : ∀ j : Nat, (((p - (h : Int) + (j : Int)) - p : Int) : Rat) = (((j : Int) - h : Int) : Rat) := by
+      intro j; congr 1; omega
+    simp only [e] at this
+    rw [this, Finset.mul_sum, ← Finset.sum_sub_distrib]
+    apply Finset.sum_congr rfl
+    intro q _
+    simp only [hiff q]
+    split
+    · push_cast; ring
+    · simp
+  rw [centroid_offset_spec, hm0, hm1]
+  rw [hm0] at *
+  field_simp
+  ring
+
+
+theorem mapM_option_fst (l : List Pt) (F : Pt → Option Rat) (r : List Pt)
+    (h : l.mapM (fun p => (F p).map fun y => (p.1, y)) = some r) : r.map (·.1) = l.map (·.1) := by
+  induction l generalizing r with
+  | nil =>
+    simp only [List.mapM_nil] at h
+    cases h; rfl
+  | cons p ps ih =>
+    rw [List.mapM_cons] at h
+    cases hF : F p with
+    | none => simp [hF] at h
+    | some y =>
+      cases hps : ps.mapM (fun p => (F p).map fun y => (p.1, y)) with
+      | none => simp [hF, hps] at h
+      | some r' =>
+        simp [hF, hps] at h
+        subst h
+        simp [ih r' hps]
+
+theorem mapM_option_map {α β γ} (l : List α) (F : α → Option β) (G : α → γ) (H : β → γ) (r : List β)
+    (hFG : ∀ a ∈ l, ∀ b, F a = some b → H b = G a) (h : l.mapM F = some r) : r.map H = l.map G := by
+  induction l generalizing r with
+  | nil =>
+    simp only [List.mapM_nil] at h
+    cases h; rfl
+  | cons a as ih =>
+    rw [List.mapM_cons] at h
+    cases hF : F a with
+    | none => simp [hF] at h
+    | some b =>
+      cases has : as.mapM F with
+      | none => simp [hF, has] at h
+      | some r' =>
+        simp [hF, has] at h
+        subst h
+        simp only [List.map_cons]
+        rw [hFG a (by simp) b hF, ih r' (fun a' ha' => hFG a' (List.mem_cons_of_mem _ ha')) has]
+
+/-- **the concrete centroid estimator fills exactly the span**: whenever `refine_tracks_centroid`
+    (bias correction off) succeeds, the refined tracks are the input tracks in order, each on the scan
+    lines `first … last` of its source track — `refine_fills_span` instantiated with the modelled
+    estimator instead of an arbitrary one. -/
+theorem centroid_refinement_fills_span (eps : Rat) (img : List (List Rat)) (h : Nat) (g : List Track)
+    (r : List (List Pt)) (hr : refineCentroidCoords eps img h g = some r) :
+    r.map (fun tr => tr.map (·.1)) = refineSpan g := by
+  unfold refineCentroidCoords at hr
+  unfold refineSpan refineCentroid
+  rw [List.map_map]
+  apply mapM_option_map g _ _ _ r _ hr
+  intro tr _ b hb
+  simp only [Function.comp, Track.times, List.map_map]
+  rw [mapM_option_fst _ _ b hb]
+  rfl
+
+
+example : refineCentroidCoords (1 / 10000000) [[0, 1, 2, 1, 0], [0, 1, 2, 1, 0], [0, 1, 2, 1, 0]] 2
+    [⟨[(0, 2), (2, 2)], none, none⟩] = some [[(0, 2), (1, 2), (2, 2)]] := by decide +kernel
+
+/-- the hypothesis of `centroid_window_mean` on a concrete line -/
+example : (∑ q ∈ Finset.range [0, 1, 3, 0, 0].length,
+    if (2 : Int) - (2 : Nat) ≤ (q : Int) ∧ (q : Int) ≤ 2 + (2 : Nat) then pix [0, 1, 3, 0, 0] q else 0) + (1 / 10000000 : Rat) ≠ 0 := by
+  simp [Finset.sum_range_succ, pix]
+  norm_num
+
+theorem absRat_eq (x : Rat) : absRat x = |x| := by
+  unfold absRat
+  split
+  · rename_i h; rw [abs_of_neg h]
+  · rename_i h; rw [abs_of_nonneg (not_lt.1 h)]
+
+/-- **where the walk stops**: the refined coordinate lies within half a pixel of the centre of the pixel
+    the loop stopped on — unless that pixel is the first or the last one of the scan line, where the
+    clamp `coordinates[low] = 0` / `coordinates[high] = n − 1` ends the walk. -/
+theorem centroid_settled_offset (eps : Rat) (img : List (List Rat)) (h : Nat) (t : Int) (x y : Rat)
+    (hy : centroidCoord eps img h t x = some y) :
+    ∃ c : Int, y = (c : Rat) + subpixelOffset eps ((pyIndex img t).getD []) h c ∧
+      (|y - (c : Rat)| ≤ 1 / 2 ∨ c = 0 ∨ c = (((pyIndex img t).getD []).length : Int) - 1) := by
+  unfold centroidCoord at hy
+  simp only at hy
+  generalize (pyIndex img t).getD [] = line at *
+  cases hst : settle eps line h 99 (roundHalfEven x) with
+  | none => simp [hst] at hy
+  | some c =>
+    simp only [hst, Option.map_some, Option.some.injEq] at hy
+    refine ⟨c, hy.symm, ?_⟩
+    have hstable := settle_stable eps line h 99 _ c hst
+    unfold stepCoord at hstable
+    simp only at hstable
+    by_cases hbig : 1 / 2 < absRat (subpixelOffset eps line h c)
+    · right
+      simp only [hbig, if_true] at hstable
+      have hs : signInt (subpixelOffset eps line h c) ≠ 0 := by
+        unfold signInt
+        split
+        · omega
+        · split
+          · omega
+          · rename_i h1 h2
+            have h0 : subpixelOffset eps line h c = 0 := le_antisymm (not_lt.1 h1) (not_lt.1 h2)
+            rw [h0] at hbig
+            unfold absRat at hbig
+            norm_num at hbig
+      split at hstable
+      · left; omega
+      · split at hstable
+        · right; omega
+        · omega
+    · left
+      rw [← hy, add_sub_cancel_left, ← absRat_eq]
+      exact not_lt.1 hbig
+
+example : centroidCoord (1 / 10000000) [[5, 1, 0, 0]] 1 0 0 = some (1 / (6 + 1 / 10000000)) := by decide +kernel
+
 
 end Verif.C17
